@@ -117,8 +117,9 @@ func (e *Exec) loopEnv() *SpecEnv {
 	return env
 }
 
-// verifyFunc generates all obligations of one function under contract.
-func verifyFunc(g *Gen, fi *funcInfo, ct *Contract, lit *ast.FuncLit, litParent *funcInfo) *Exec {
+// verifyFunc generates all obligations of one function under contract. With lit != nil the "function" is
+// the function literal lit inside fi (a closure with its own contract): its free variables are inputs.
+func verifyFunc(g *Gen, fi *funcInfo, ct *Contract, lit *ast.FuncLit, parentCt *Contract) *Exec {
 	e := newExec(g, fi.pkg)
 	e.fi = fi
 	e.contract = ct
@@ -129,6 +130,11 @@ func verifyFunc(g *Gen, fi *funcInfo, ct *Contract, lit *ast.FuncLit, litParent 
 	sig := fi.obj.Type().(*types.Signature)
 	body := fi.decl.Body
 	ftype := fi.decl.Type
+	if lit != nil {
+		body = lit.Body
+		ftype = lit.Type
+		sig, _ = info.Types[lit].Type.(*types.Signature)
+	}
 	e.computeOrdinals(body, info)
 	fr := &Frame{fn: fi.obj, sig: sig, top: true, pkg: fi.pkg, body: body, entry: map[string]Val{}, entryT: map[string]types.Type{}, scopePos: body.Lbrace + 1}
 	e.frames = []*Frame{fr}
@@ -145,16 +151,27 @@ func verifyFunc(g *Gen, fi *funcInfo, ct *Contract, lit *ast.FuncLit, litParent 
 			fr.entryT[id.Name] = obj.Type()
 		}
 	}
-	for _, fld := range ftype.Params.List {
-		for _, n := range fld.Names {
-			obj := info.Defs[n]
-			if obj == nil || n.Name == "_" {
+	if lit != nil {
+		// the enclosing function's parameters and locals that the literal mentions are inputs (captured by reference)
+		for _, obj := range freeVars(lit, info) {
+			if _, done := e.st.vars[obj]; done {
 				continue
 			}
-			v := e.havocVal(n.Name, obj.Type())
-			e.st.vars[obj] = v
-			fr.entry[n.Name] = v
-			fr.entryT[n.Name] = obj.Type()
+			e.st.vars[obj] = e.havocVal(obj.Name(), obj.Type())
+		}
+	}
+	if ftype.Params != nil {
+		for _, fld := range ftype.Params.List {
+			for _, n := range fld.Names {
+				obj := info.Defs[n]
+				if obj == nil || n.Name == "_" {
+					continue
+				}
+				v := e.havocVal(n.Name, obj.Type())
+				e.st.vars[obj] = v
+				fr.entry[n.Name] = v
+				fr.entryT[n.Name] = obj.Type()
+			}
 		}
 	}
 	e.setupResults(fr, ftype.Results, sig, info)
@@ -180,6 +197,70 @@ func verifyFunc(g *Gen, fi *funcInfo, ct *Contract, lit *ast.FuncLit, litParent 
 	return e
 }
 
+// freeVars: variables of the enclosing function used inside lit.
+func freeVars(lit *ast.FuncLit, info *types.Info) []*types.Var {
+	seen := map[*types.Var]bool{}
+	var out []*types.Var
+	ast.Inspect(lit.Body, func(n ast.Node) bool {
+		id, ok := n.(*ast.Ident)
+		if !ok {
+			return true
+		}
+		v, ok := info.Uses[id].(*types.Var)
+		if !ok || v.IsField() || v.Pkg() == nil || v.Parent() == v.Pkg().Scope() {
+			return true
+		}
+		if v.Pos() >= lit.Pos() && v.Pos() <= lit.End() {
+			return true // declared inside the literal
+		}
+		if !seen[v] {
+			seen[v] = true
+			out = append(out, v)
+		}
+		return true
+	})
+	return out
+}
+
+// assignedFreeVars: free variables that lit assigns.
+func assignedFreeVars(lit *ast.FuncLit, info *types.Info) []*types.Var {
+	free := map[*types.Var]bool{}
+	for _, v := range freeVars(lit, info) {
+		free[v] = true
+	}
+	seen := map[*types.Var]bool{}
+	var out []*types.Var
+	mark := func(x ast.Expr) {
+		if id, ok := ast.Unparen(x).(*ast.Ident); ok {
+			if v, ok := info.ObjectOf(id).(*types.Var); ok && free[v] && !seen[v] {
+				seen[v] = true
+				out = append(out, v)
+			}
+		}
+	}
+	ast.Inspect(lit.Body, func(n ast.Node) bool {
+		switch s := n.(type) {
+		case *ast.AssignStmt:
+			for _, l := range s.Lhs {
+				mark(l)
+			}
+		case *ast.IncDecStmt:
+			mark(s.X)
+		case *ast.RangeStmt:
+			if s.Tok == token.ASSIGN {
+				if s.Key != nil {
+					mark(s.Key)
+				}
+				if s.Value != nil {
+					mark(s.Value)
+				}
+			}
+		}
+		return true
+	})
+	return out
+}
+
 func (e *Exec) resultNames(env *SpecEnv, fr *Frame, st *State) {
 	n := len(fr.resultKeys)
 	for i, k := range fr.resultKeys {
@@ -199,6 +280,8 @@ func (e *Exec) checkPosts(retOrd int) {
 	fr := e.frames[0]
 	env := e.topEnv(e.st)
 	env.paramsAtEntry = true
+	env.scopePos = fr.body.Rbrace // locals of the outermost block are visible to postconditions
+	env.lenientLocals = true
 	e.resultNames(env, fr, e.st)
 	for _, inst := range e.contract.Instances {
 		e.addFact(e.lemmaInstance(inst, env))
@@ -209,6 +292,10 @@ func (e *Exec) checkPosts(retOrd int) {
 			o.postSt = e.st
 			o.ClauseTerm = t
 		}
+	}
+	for i, c := range e.contract.Guarantees {
+		t := e.specBool(c, env)
+		e.oblige(fmt.Sprintf("guarantee#%d@ret#%d", i, retOrd), "post", c.Text, t)
 	}
 	e.checkFrame(retOrd)
 }
@@ -463,6 +550,7 @@ func (e *Exec) checkCallsite(c *ast.CallExpr, fv Val, args []Val) {
 			continue
 		}
 		env := e.loopEnv()
+		env.scopePos = c.Pos()
 		env.site = &siteCtx{args: evArgs, argT: evT, name: site.Name, k: site.K}
 		// inside a callsite clause the call's own arguments are addressable as arg(name,k,i) even for '*' clauses
 		if cs.Ord < 0 {
@@ -489,7 +577,9 @@ func (e *Exec) checkCallsite(c *ast.CallExpr, fv Val, args []Val) {
 		if as.Before != site.Name || (as.Ord >= 0 && as.Ord != site.K) {
 			continue
 		}
-		t := e.specBool(as.C, e.loopEnv())
+		aenv := e.loopEnv()
+		aenv.scopePos = c.Pos()
+		t := e.specBool(as.C, aenv)
 		e.oblige(fmt.Sprintf("assert#%d before %s#%d", i, site.Name, site.K), "assert", as.C.Text, t)
 	}
 }
@@ -657,7 +747,25 @@ func (e *Exec) applyContract(fn *types.Func, ct *Contract, f FuncV, args []Val, 
 		t := e.specBool(r, env)
 		e.oblige(fmt.Sprintf("call-pre %s.%d", label, i), "call-pre", r.Text, t)
 	}
-	e.trusted["callee contract "+fn.Pkg().Name()+"."+ct.Key+" (verified separately)"] = true
+	if ct.Trusted {
+		e.trusted["callee contract "+fn.Pkg().Name()+"."+ct.Key+" is TRUSTED (assumed, body not verified)"] = true
+	} else {
+		e.trusted["callee contract "+fn.Pkg().Name()+"."+ct.Key+" (verified separately)"] = true
+	}
+	if ct.Pure {
+		// deterministic function of its arguments (and of nothing else): an uninterpreted application, so that
+		// two calls with equal arguments agree and specifications can mention the call
+		res := e.pureApp(fn, f.RecvT, f.Recv, args, resT)
+		env2 := &SpecEnv{cur: e.st, old: e.st, names: map[string]boundVar{}, pkg: cpkg, sf: env.sf}
+		for k, v := range names {
+			env2.names[k] = v
+		}
+		e.bindResults(env2.names, sig, res)
+		for _, en := range ct.Ensures {
+			e.assume(e.specBool(en, env2))
+		}
+		return res
+	}
 	old := e.st.clone()
 	envOld := *env
 	envOld.cur, envOld.old, envOld.inOld = old, old, true
